@@ -12,9 +12,12 @@ RUN   harness/C19_auth        SaltToken
       harness/C19_keepstore   remoteProxy.Get -> remoteClient -> recording HTTP server
 JUDGE specs/federation/TokenSaltTrace.tla  (TokenSaltContract)
 """
+import concurrent.futures
 import os
 import random
+import subprocess
 import sys
+import time
 
 sys.path.insert(0, os.path.join(os.path.dirname(os.path.abspath(__file__)), "..", "lib"))
 import vlib  # noqa
@@ -43,6 +46,47 @@ def random_scenario(rnd, sid):
     return {"id": sid, "site": site, "toks": toks, "origin": "random"}
 
 
+def run_driver(ctx, pkg, ovpath, test, scns, tag):
+    """go_run_driver of vlib for one site, safe to call from several threads (own file names)."""
+    sp = os.path.join(ctx.scratch, "c19scn-%s.ndjson" % tag)
+    tp = os.path.join(ctx.scratch, "c19trace-%s.ndjson" % tag)
+    vlib.write_ndjson(sp, scns)
+    e = dict(os.environ)
+    e.update(vlib.GOENV)
+    e.update({"VERIF_SEED": str(ctx.seed), "VERIF_TIER": ctx.tier, "VERIF_SCRATCH": ctx.scratch,
+              "VERIF_SCENARIOS": sp, "VERIF_TRACES": tp})
+    cmd = ["go", "test", "-tags", "verif", "-overlay", ovpath, "-vet=off", "-count=1", "-v", "-run", test,
+           "-timeout", "1500s", "./" + pkg]
+    t = time.time()
+    try:
+        p = subprocess.run(cmd, cwd=vlib.REPO, env=e, stdout=subprocess.PIPE, stderr=subprocess.STDOUT,
+                           timeout=1700, text=True, errors="replace")
+    except subprocess.TimeoutExpired:
+        raise vlib.InfraError("go test timeout on %s %s" % (pkg, test))
+    ctx.log("go test %s -run %s: rc=%d in %.1fs" % (pkg, test, p.returncode, time.time() - t))
+    if "VERIF-DRIVER-DONE" not in p.stdout or not os.path.exists(tp):
+        raise vlib.InfraError("driver %s %s did not complete (rc=%d):\n%s"
+                              % (pkg, test, p.returncode, "\n".join(p.stdout.splitlines()[-60:])))
+    return vlib.read_ndjson(tp)
+
+
+def leak_class(scn, ev):
+    """Input/observation class of a forwarded request, for known-finding matching: which protected tokens
+    had their secret seen, and was it only where KF-C19-1 (form token -> body) / KF-C19-2 (cookie token ->
+    Cookie header) put it."""
+    kinds = set()
+    for tok, o in zip(scn["toks"], ev.get("obs", [])):
+        if tok["c"] not in PROTECTED or not o.get("where"):
+            continue
+        if tok["p"] == "form" and o["where"] == ["body"]:
+            kinds.add("form_body")
+        elif tok["p"] == "cookie" and o["where"] == ["header:cookie"]:
+            kinds.add("token_cookie")
+        else:
+            return "other"
+    return "+".join(sorted(kinds)) or "none"
+
+
 def common_copies_identical():
     base = None
     for d in ("C19_auth", "C19_federation", "C19_controller", "C19_keepstore"):
@@ -67,7 +111,7 @@ def run(ctx):
     ctx.extra["scenarios_emitted"] = len(got)
     ctx.exhaustive = True      # the finite table of classes x placements x sites is enumerated completely
     scns = []
-    reps = 6 if ctx.thorough else 2          # concretisations (token strings, request shapes) per table row
+    reps = 6 if ctx.thorough else 1          # concretisations (token strings, request shapes) per table row
     # one scenario per table row; a row may have two outcomes in the model (DecideCrash)
     rows = {}
     for s in got:
@@ -92,12 +136,18 @@ def run(ctx):
         s["rseed"] = ctx.seed * 31
         scns.append(s)
     by_id = {s["id"]: s for s in scns}
-    events = []
+    # RUN: the four drivers side by side (overlays are prepared first, sequentially)
+    jobs = []
     for site, (pkg, hdir, test, extra) in SITES.items():
         mine = [s for s in scns if s["site"] == site]
-        ov = ctx.harness_overlay(pkg, hdir, extra=extra)
-        evs, out = ctx.go_run_driver(pkg, ov, test, mine, timeout=1500)
-        events += evs
+        jobs.append((pkg, ctx.overlay(ctx.harness_overlay(pkg, hdir, extra=extra)), test, mine, site))
+    with concurrent.futures.ThreadPoolExecutor(max_workers=4) as ex:
+        futs = [ex.submit(run_driver, ctx, *j) for j in jobs]
+        events = [ev for f in futs for ev in f.result()]
+    for t in vlib.split_traces(events):
+        for ev in t[1:]:
+            if ev["ev"] == "forward":
+                ev["leakclass"] = leak_class(by_id[t[0]["scn"]], ev)
     traces = vlib.split_traces(events)
     ctx.evaluations = len(traces)
     # impl-model prediction vs. recorded outcome (drift only)
@@ -127,14 +177,15 @@ def run(ctx):
     if nd:
         ctx.drift.append("%d scenarios differ from the decision table" % nd)
     # JUDGE.  Requests that fall into the recorded known findings (a protected token in a form body or in
-    # the token cookie of a request to the legacy site): a seeded sample is judged by the contract proper
-    # (re-confirms KF-C19-1/2 on every run), the others by the contract with exactly those tokens waived.
+    # the token cookie of a request to the legacy site): ALL of them are judged by the contract with the
+    # narrow waiver of TokenSaltContract.AllowedW (so nothing else can hide in them), and a seeded sample
+    # also by the contract proper (re-confirms KF-C19-1/2 on every run).
     def kf_kind(s):
         if s["site"] != "legacy":
             return None
         kinds = sorted(set(t["p"] for t in s["toks"] if t["p"] in ("form", "cookie") and t["c"] in PROTECTED))
         return ",".join(kinds) or None
-    strict, waived, sample_count = [], [], {}
+    strict, sample, waived, sample_count = [], [], [], {}
     order = list(range(len(traces)))
     rnd.shuffle(order)
     in_sample = set()
@@ -145,11 +196,18 @@ def run(ctx):
             in_sample.add(i)
     for i, t in enumerate(traces):
         k = kf_kind(by_id[t[0]["scn"]])
-        (waived if k and i not in in_sample else strict).extend(t)
+        if k:
+            waived.extend(t)             # every KF-class trace, the sample included
+            if i in in_sample:
+                sample.extend(t)
+        else:
+            strict.extend(t)
     ctx.extra["kf_sample_judged_strictly"] = len(in_sample)
     ctx.extra["kf_traces_judged_with_waiver"] = len(vlib.split_traces(waived))
-    ctx.judge(sd, "TokenSaltTrace", "Judge_TokenSalt.cfg", strict, scenario_of=by_id, timeout=1800,
-              max_rejects=len(in_sample) + 10)
+    ctx.judge(sd, "TokenSaltTrace", "Judge_TokenSalt.cfg", strict, scenario_of=by_id, timeout=1800, max_rejects=10)
+    if sample:
+        ctx.judge(sd, "TokenSaltTrace", "Judge_TokenSalt.cfg", sample, scenario_of=by_id, timeout=600,
+                  max_rejects=len(in_sample) + 1)
     if waived:
         ctx.judge(sd, "TokenSaltTraceKF", "Judge_TokenSalt.cfg", waived, scenario_of=by_id, timeout=1800,
                   max_rejects=10)
